@@ -361,7 +361,7 @@ def locked_loads(chk, repo):
     var_cls = repo.resolve_module_name(repo.module("ceos_alos2.hierarchy"), "Variable")
     if arr_cls.kind != "class" or var_cls.kind != "class":
         raise AnalysisError("anchor vanished: Array / Variable classes as seen from ceos_alos2.xarray")
-    for n_chunks in (1, 3):
+    for n_chunks, protocol in ((1, "memory"), (3, "memory"), (3, "file"), (3, ("file", "local")), (3, "s3")):
         I = Interp(repo)
         sc = I.module_scope(xm)
         held = [0]
@@ -411,10 +411,13 @@ def locked_loads(chk, repo):
             seen.append(held[0])
             return Obj("Block", OrderedDict())
         offsets = DictS(OrderedDict((i, DictS(OrderedDict(offset=Const(720 + 100 * i), size=Const(100)))) for i in range(n_chunks)))
+        proto = Const(protocol) if isinstance(protocol, str) else TupS([Const(p_) for p_ in protocol])
+        inner_fs = Obj("FileSystem", OrderedDict(protocol=proto, async_impl=Const(False)))
+        dirfs = Obj("DirFileSystem", OrderedDict(fs=inner_fs, path=Const("/product"), protocol=Const("dir")))
         data = Obj("Array", OrderedDict(shape=Const((n_chunks * 2, 4)), dtype=Const("uint16"), chunk_offsets=offsets, records_per_chunk=Const(2), chunks=Const((2, 4)), byte_ranges=ListLit([]), url=Const("IMG-X"),
-                                        __getitem__=Fn("py", impl=getitem, name="__getitem__")), klass=(arr_cls.mod, arr_cls.node))
+                                        fs=dirfs, type_code=Const("IU2"), __getitem__=Fn("py", impl=getitem, name="__getitem__")), klass=(arr_cls.mod, arr_cls.node))
         var = Obj("Variable", OrderedDict(dims=ListLit([Const("rows"), Const("columns")]), data=data, attrs=DictS()), klass=(var_cls.mod, var_cls.node))
-        label = f"an image of {n_chunks} chunk(s)"
+        label = f"an image of {n_chunks} chunk(s) on a {protocol!r} file system"
         try:
             I.call(I.lookup("to_variable", sc), [var], {})
             w = wrapped.get("w")
@@ -425,9 +428,13 @@ def locked_loads(chk, repo):
             raise AnalysisError(f"{where}: the lazy wrapping / a load through it cannot be evaluated on {label}: {str(e)[:140]}")
         if not seen:
             raise AnalysisError(f"{where}: a load through the wrapper does not index the array ({label}); not decided")
+        if protocol != "memory":
+            # opens on these file systems give independent file objects: the load is evaluated (it must be decidable), a lock is not demanded
+            chk.ok("C19-T6", where, f"{label}: a load through the wrapper evaluates ({'under a real lock' if all(h >= 1 for h in seen) else 'without a lock; file objects are not shared there'})")
+            continue
         chk.require(all(h >= 1 for h in seen), "C19-T6", where, f"{label}: the array is indexed while a real lock is held",
                     f"{label}: the array is indexed with no real lock held (the lock is a no-op, is missing, or is released before the read): on a file system that shares one file object between opens "
-                    f"(fsspec memory://) two loads of this variable seek and read on each other's position", key=f"locked-load:{'single' if n_chunks == 1 else 'multi'}-chunk")
+                    f"(fsspec memory://) two loads of this variable seek and read on each other's position", key=f"locked-load:{'single' if n_chunks == 1 else 'multi'}-chunk:{'memory' if protocol == 'memory' else 'local' if 'file' in protocol else 'remote'}")
 
 
 def one_lock_per_image(chk, repo):
